@@ -206,6 +206,8 @@ def gen_C12(tier, seed):
                 opts['to'] = to
             p.write(1, valid=False, mustraise='window', **opts)      # no rows [from, to) exist in a 4-row source
             progs.append(p.build())
+    from scen2 import foreign_reference_programs, header_route_programs
+    progs += foreign_reference_programs('C12') + [q for q in header_route_programs('C12') if q['meta'].get('fringe')]
     return progs
 
 
